@@ -38,6 +38,12 @@ def run(ctx):
     for v in rnd.sample(vecs, 900 if ctx.tier == "quick" else len(vecs)):
         h = rnd.choice(["a", "b", "c"])
         cases.append(dict(id=len(cases), edges=v["edges"], main=v["main"], mods=["a", "b", "c"], extra="", hollow=[h])); meta.append(("graph-hollow", v))
+    # the same digraphs under OTHER module names: one to four path segments, dots / digits / Latin letters / underscores in a
+    # segment (导入“A-B-C” is A/B/C.zn whatever the segments look like)
+    NAMEPOOL = ["报表.v2", "a.b", "工具箱", "m1", "模块_1", "汇总.2024", "v1.2-工具", "归档-汇总.2024", "甲-乙-丙-丁", "lib-Util", "数据.表-第1页", "x.zn.bak-y", "UPPER", "é-ü", "一-二.三-四"]
+    for v in rnd.sample(vecs, 1200 if ctx.tier == "quick" else len(vecs)):
+        nm = rnd.sample(NAMEPOOL, 3)
+        cases.append(dict(id=len(cases), edges=v["edges"], main=v["main"], mods=["a", "b", "c"], extra="", more=True, names=dict(zip(["a", "b", "c"], nm)))); meta.append(("graph-names", v))
     for v in mvecs:
         cases.append(dict(id=len(cases), edges=v["edges"], main=v["main"], mods=["a", "b", "d"], extra="")); meta.append(("missing", v))
     # export / read-only / selective-import probes (a -> b chain)
@@ -152,6 +158,6 @@ def run(ctx):
                     "imported modules x four import lists (TLC checks the invariants on all 262144; quick replays a seeded 6000 of them, thorough all), plus all digraphs on two modules with a missing third one (576): TLC runs the depth-first load machine (invariants: body at most once, imports before body, circular error iff a cycle "
                     "is reachable - against an independent transitive-closure definition) and emits body trace and result; each vector becomes a directory of .zn files with "
                     "1-3 path segments, executed with LoadFile().Execute: body order/multiplicity, error code 63/60, and five probes per module (an imported method, a handler block of an imported method, a body "
-                    "constructing the module's type and a method of that type must all be able to use their own module's names, and a method that calls what its module imported - methods of the modules it imports, a library function - gives from the importer what it gives at home; modules not imported by main are not visible); the three-module digraphs again with one module file made of import statements only, and with the library 《@JSON》 imported by every file; plus 8 export/read-only/selective-import probe programs; export facet (ZnExport): import-all and every selective list of <= 4 distinct names over {method, helper method, type, module variable, unknown name} in every written order (206), the same for the library 《@JSON》 (16) - usable names = exported names that are listed, every usable name refuses assignment",
+                    "constructing the module's type and a method of that type must all be able to use their own module's names, and a method that calls what its module imported - methods of the modules it imports, a library function - gives from the importer what it gives at home; modules not imported by main are not visible); the three-module digraphs again under other module names (1-4 path segments; dots, digits, Latin letters, underscores inside a segment), with one module file made of import statements only, and with the library 《@JSON》 imported by every file; plus 8 export/read-only/selective-import probe programs; export facet (ZnExport): import-all and every selective list of <= 4 distinct names over {method, helper method, type, module variable, unknown name} in every written order (206), the same for the library 《@JSON》 (16) - usable names = exported names that are listed, every usable name refuses assignment",
                spec_outcomes=outcomes)
     return cov, ["import order inside a module is alphabetical (the generator writes it that way)", "four modules: exhaustive in the thorough tier, a TLC-seeded sample in the quick tier"]
